@@ -28,7 +28,7 @@ ASSUMPTIONS = ["gate decision functions are pure functions of their arguments, s
 
 def gen_case(rng: random.Random, tier: str) -> dict:
     feats = {"gates": True, "loops": rng.random() < 0.3, "nested": rng.random() < 0.4, "maps": False, "signals": False, "edge_defaults": False}
-    g = gen.gen_program(rng, feats=feats, max_nodes=8, p_gate=rng.choice([0.25, 0.35, 0.45]))
+    g = gen.gen_program(rng, feats=feats, max_nodes=10 if tier == "thorough" else 8, p_gate=rng.choice([0.25, 0.35, 0.45]))
     # closed-by-default more often than the general generator, and some fallbacks
     for nd, _d, _p in iter_nodes(g):
         if nd["kind"] in ("route", "ifelse") and not nd.get("blk"):
